@@ -179,7 +179,7 @@ def evaluate(wt, tgt, m, jobs):
                 return rec
         rec["checks"] = {}
         for prop in tgt["checks"]:
-            r = sh(f"cd {VERIF} && VERIF_REPO={wt} timeout 3000 ./check {prop} --tier quick --no-evidence --jobs {jobs}")
+            r = sh(f"cd {VERIF} && VERIF_REPO={wt} VERIF_REPLAYS={wt}/.replays timeout 3000 ./check {prop} --tier quick --no-evidence --jobs {jobs}")
             if r.returncode == 1 and f"VIOLATION property={prop}" in r.stdout:
                 inv = sorted({ln.split("invariant=")[1].split()[0] for ln in r.stdout.splitlines()
                               if ln.startswith("violation") and "invariant=" in ln})
